@@ -250,6 +250,20 @@ def runsPartitionOk (lv : List Nat) (a b : Nat) (runs : List (Nat × Nat)) : Boo
   let maximal := sorted.all (fun r => r.2 == b || lv.getD r.2 0 != lv.getD r.1 0)
   nonEmpty && cover.1 && cover.2 == b && oneLevel && maximal
 
+/-- `spec` (diagnostic, used by tools/spec_vs_icu.py only): no implementation answer is judged; the Spec's own
+    answer for a one-paragraph text with the built-in data is printed into the stats — paragraph level, X5c classes,
+    UAX #9 levels, and the levels after L1 for the whole paragraph taken as one line -/
+def specDump (f : Fields) : Verdict :=
+  let cs := hexList (getF f "T")
+  let dflt := parseDir (getF f "dir")
+  let raw := cs.map hardcoded.cls
+  let rep := Spec.resolveFSI raw
+  let pl := Spec.paraLevel dflt raw
+  let chars : List Spec.Ch := (cs.zip rep).map (fun (c, k) => { cls := k, brk := hardcoded.brk c })
+  let lv := Spec.paragraphLevels pl chars
+  let l1 := Spec.lineLevels pl (rep.zip lv)
+  { stats := s!"pl={pl} lv={joinNat lv} l1={joinNat l1}" }
+
 def checkLine (f : Fields) (ans : Fields) (panicked : Bool) : Verdict :=
   let enc := getF f "enc"
   let tcp := hexList (getF f "T")
@@ -725,6 +739,7 @@ def processLine (line : String) : Option String :=
         | "stage" => checkStage f ans panicked a
         | "u16" => checkU16 f ans panicked
         | "s8" => checkS8 f ans panicked
+        | "spec" => specDump f
         | "lvl" => checkLvl f ans panicked
         | "u8" => checkU8 f ans
         | "hasrtl" => checkHasRtl f ans
